@@ -6,6 +6,27 @@ import ADProofs.SimProofs
 # ADProofs.PruneComputeProofs — pruning afterwards equals computing with the stricter `min_npix`
 (property C08, the part that holds for the code as it is)
 
+Setting: `min_delta = 0`, thresholds `n0 ≤ n1`, an order of distinct pixels sorted by
+non-increasing value (ties allowed), any adjacency.
+
+* `Sm`, `SmL`, `Sm.refl/symm/trans`  : `P10.Sim (fun p => p)` is an equivalence
+* `finishG bad i o cs`               : node `i` after absorbing its `bad` children and dissolving a
+  single remaining child; `joinAdj_finishG` (the receiving structure of a step is such a node),
+  `finishG_sim`, `finishG_perm`, `finishG_absorb`
+* `collapse n`                       : declarative specification of pruning with `min_npix = n`
+  (bottom-up `finishG` with "failing leaf" as badness); `collapse_pixels`, `collapse_sim`,
+  `collapse_fails_leaf`, `collapse_finishG` (collapsing a finished node = finishing the collapsed
+  children with the combined test)
+* `insig_npix`, `insig_rel`          : with `min_delta = 0` on a sorted run only `min_npix` decides;
+  the strict test on a collapsed root is "loose test or region fails"
+* `run_collapse`                     : (b) strict run ≃ collapse of the loose run
+* `ic_eq`, `io_eq`, `posthoc_eq_mergetime` : the post-hoc delta tests always hold; post-hoc test =
+  merge-time test on frozen leaves
+* `pruneIn_collapse`, `pruneLoop_collapse`, `collapse_fix_aux`, `pruneLoop_eq_collapse` :
+  (a) a pruning step does not change the collapse (confluence), a fixpoint is its own collapse
+* `prune_eq_compute_npix`            : MAIN (the full target)
+* `delta_counterexample`             : why `min_delta` is excluded (by `decide`)
+
 Core Lean only.
 -/
 open Tree
@@ -956,7 +977,7 @@ theorem pruneIn_collapse (val : Nat → Int) (n : Nat) (t t' : Tree)
     · rw [e]
       exact collapse_pruneAt_two n i o x y k (by simpa using hk) hl hf
   · intro i o a k k' b _ ih hids hpix
-    have hk := ih (PruneP.idsNodup_kid hids) (fun s hs => hpix s (PruneP.mem_pre.2 (Or.inr
+    have hk := ih (idsNodup_kid hids) (fun s hs => hpix s (PruneP.mem_pre.2 (Or.inr
       (PruneP.mem_preL.2 ⟨k, by simp, hs⟩))))
     rw [collapse_node, collapse_node]
     apply finishG_sim (List.Perm.refl _) _ (fun c _ c' hcc => bn_sim hcc)
@@ -968,7 +989,7 @@ theorem pruneForest_collapse (val : Nat → Int) (n : Nat) (f f' : List Tree)
     (hids : IdsNodup f) (hpix : ∀ s ∈ preL f, s.pixels ≠ []) :
     SmL (f'.map (collapse n)) (f.map (collapse n)) := by
   obtain ⟨a, t, t', b, rfl, rfl, hp⟩ := pruneForest_some _ f [] f' h
-  have := pruneIn_collapse val n t t' hp (PruneP.idsNodup_sub hids)
+  have := pruneIn_collapse val n t t' hp (idsNodup_sub hids)
     (fun s hs => hpix s (PruneP.mem_preL.2 ⟨t, by simp, hs⟩))
   simp only [List.nil_append, List.map_append, List.map_cons]
   exact P10.SimL.append (SmL.refl _) (.cons this (SmL.refl _) (List.Perm.refl _))
@@ -1048,7 +1069,8 @@ theorem collapse_fix_aux (n : Nat) :
       rw [List.map_nil, finishG_nil]; exact Sm.refl _
     · have hlen : ¬ (ks.map (collapse n)).length ≤ 1 := by simp; omega
       apply Sm.of'
-      · simp [finishG, XG, h1, h2, hlen, ownL]
+      · have hlen' : ¬ ks.length ≤ 1 := by omega
+        simp [finishG, XG, h1, h2, hlen', ownL]
       · simp only [finishG, YG, h2, hlen, if_false, PruneP.kids_node]; exact hks
   · intro _ _; exact .nil
   · intro t ts h1 h2 hnf har
@@ -1057,5 +1079,227 @@ theorem collapse_fix_aux (n : Nat) :
       (h2 (fun k hk => hnf k (List.mem_cons_of_mem _ hk)) (fun P hP => har P ?_)) (List.Perm.refl _)
     · rw [PruneP.preL_cons]; exact List.mem_append_left _ hP
     · rw [PruneP.preL_cons]; exact List.mem_append_right _ hP
+
+/-! ## the trunk step and the main theorem -/
+
+/-- the `_make_trunk` filter with `min_delta = 0`, `min_npix = n` -/
+abbrev keepT (val : Nat → Int) (n : Nat) (t : Tree) : Bool :=
+  !(t.isLeaf && !allOrphan val [Crit.minDelta 0, Crit.minNpix n] t)
+
+theorem keepT_eq (val : Nat → Int) (n : Nat) {t : Tree} (hpix : t.pixels ≠ []) :
+    keepT val n t = !bn n t := by
+  unfold keepT bn
+  cases hl : t.isLeaf with
+  | false => rfl
+  | true =>
+    have hk : t.kids = [] := (PruneP.isLeaf_iff t).mp hl
+    have hne : t.own ≠ [] := by
+      rw [pixels_eq, hk] at hpix; simpa [pixelsL] using hpix
+    rw [io_eq val n hne]; simp
+
+theorem keepT_sim (val : Nat → Int) (n : Nat) {t t' : Tree} (h : Sm t t') (hpix : t.pixels ≠ []) :
+    keepT val n t = keepT val n t' := by
+  have hpix' : t'.pixels ≠ [] := by
+    intro e
+    have := Sm.pixels' h
+    rw [e] at this
+    exact hpix (List.nil_perm.mp this)
+  rw [keepT_eq val n hpix, keepT_eq val n hpix', bn_sim h]
+
+theorem pruneLoop_pixels_ne (ic : Tree → Tree → Bool) (k : Nat) (f : List Tree) (hids : IdsNodup f)
+    (hpix : ∀ s ∈ preL f, s.pixels ≠ []) : ∀ s ∈ preL (pruneLoop ic k f), s.pixels ≠ [] := by
+  intro s' hs' e
+  obtain ⟨s, hs, _, pm⟩ := pruneLoop_regions ic k f hids s' hs'
+  rw [e] at pm
+  exact hpix s hs (List.nil_perm.mp pm)
+
+theorem own_ne_pixels_ne {t : Tree} (h : t.own ≠ []) : t.pixels ≠ [] := by
+  rw [pixels_eq]; intro e; exact h (List.append_eq_nil_iff.mp e).1
+
+section Main
+variable (val : Nat → Int) (nbrs : Nat → List Nat) (order : List Nat) (n0 n1 : Nat)
+
+/-- **(a)**: the pruning loop applied to the loose trunk computes its collapse -/
+theorem pruneLoop_eq_collapse (hnd : order.Nodup) :
+    let E0 := envOf val nbrs [Crit.minDelta 0, Crit.minNpix n0]
+    let loose := makeTrunk E0 (run E0 order)
+    SmL (pruneLoop (allChild val [Crit.minDelta 0, Crit.minNpix n1]) (sizeL loose) loose)
+      (loose.map (collapse n1)) := by
+  intro E0 loose
+  have hsub : ∀ s ∈ preL loose, s ∈ preL (run E0 order) := makeTrunk_nodes_subset E0 _
+  have hids : IdsNodup loose := by
+    have h := run_ids_nodup E0 order hnd
+    unfold IdsNodup
+    have h1 : (preL loose).Sublist (preL (sortById (run E0 order))) :=
+      preL_sublist List.filter_sublist
+    have h2 := ((preL_perm (sortById_perm (run E0 order))).map Tree.id).nodup_iff.mpr h
+    exact (h1.map Tree.id).nodup h2
+  have hpix : ∀ s ∈ preL loose, s.pixels ≠ [] :=
+    fun s hs => own_ne_pixels_ne (run_own_nonempty E0 order s (hsub s hs))
+  have har : ∀ s ∈ preL loose, PArity s := fun s hs => compute_arity_pre E0 order s hs
+  have hloop := pruneLoop_collapse val n1 (sizeL loose) loose hids hpix
+  have hfix := pruneLoop_fixpoint (allChild val [Crit.minDelta 0, Crit.minNpix n1]) loose hids
+  rw [pruneForest_none_iff] at hfix
+  have harL := pruneLoop_arity (allChild val [Crit.minDelta 0, Crit.minNpix n1]) (sizeL loose)
+    loose hids har
+  refine SmL.trans ((collapse_fix_aux n1).2 _ ?_ harL) hloop
+  intro t ht P hP k hk hl
+  exact ic_true_pass val n1 (hfix P (PruneP.mem_preL.2 ⟨t, ht, hP⟩) k hk hl)
+
+/-- **C08 for `min_npix` (with `min_delta = 0`).**  Computing with `min_npix = n0` and pruning
+afterwards with `min_npix = n1 ≥ n0` gives the same hierarchy — same regions, same own pixels,
+same parent relation; identifiers, child order and own-pixel order may differ — as computing
+with `min_npix = n1` directly.  The order must list distinct pixels by non-increasing value
+(ties in any order); nothing is assumed about the adjacency. -/
+theorem prune_eq_compute_npix (hnd : order.Nodup)
+    (hsorted : order.Pairwise (fun a b => val b ≤ val a)) (h01 : n0 ≤ n1) :
+    P10.SimL (fun p => p)
+      (prune (allChild val [Crit.minDelta 0, Crit.minNpix n1])
+        (allOrphan val [Crit.minDelta 0, Crit.minNpix n1])
+        (makeTrunk (envOf val nbrs [Crit.minDelta 0, Crit.minNpix n0])
+          (run (envOf val nbrs [Crit.minDelta 0, Crit.minNpix n0]) order)))
+      (makeTrunk (envOf val nbrs [Crit.minDelta 0, Crit.minNpix n1])
+        (run (envOf val nbrs [Crit.minDelta 0, Crit.minNpix n1]) order)) := by
+  have hA := pruneLoop_eq_collapse val nbrs order n0 n1 hnd
+  have hB := run_collapse val nbrs n0 n1 h01 order hsorted
+  simp only at hA
+  generalize hE0 : envOf val nbrs [Crit.minDelta 0, Crit.minNpix n0] = E0 at *
+  generalize hr0 : run E0 order = roots0 at *
+  generalize hr1 : run (envOf val nbrs [Crit.minDelta 0, Crit.minNpix n1]) order = roots1 at *
+  have hne0 : ∀ t ∈ roots0, t.own ≠ [] := by
+    intro t ht
+    rw [← hr0] at ht
+    exact run_own_nonempty E0 order t (mem_preL_of_mem ht)
+  -- pixels of everything in sight are non-empty
+  have hpixC : ∀ c ∈ roots0.map (collapse n1), c.pixels ≠ [] := by
+    intro c hc e
+    obtain ⟨t, ht, rfl⟩ := List.mem_map.mp hc
+    have := collapse_pixels n1 t
+    rw [e] at this
+    exact own_ne_pixels_ne (hne0 t ht) (List.nil_perm.mp this)
+  have hpixLC : ∀ c ∈ (makeTrunk E0 roots0).map (collapse n1), c.pixels ≠ [] := by
+    intro c hc
+    obtain ⟨t, ht, rfl⟩ := List.mem_map.mp hc
+    exact hpixC _ (List.mem_map_of_mem (ContourP.mem_makeTrunk.mp ht).1)
+  unfold prune makeTrunkP
+  generalize pruneLoop (allChild val [Crit.minDelta 0, Crit.minNpix n1]) (sizeL (makeTrunk E0 roots0))
+    (makeTrunk E0 roots0) = L at *
+  -- 1. drop the sort on the pruned side
+  have s1 : SmL ((sortById L).filter (keepT val n1)) (L.filter (keepT val n1)) :=
+    SmL.of_perm ((sortById_perm L).filter _)
+  -- 2. pass to the collapse of the loose trunk
+  have s2 : SmL (L.filter (keepT val n1)) (((makeTrunk E0 roots0).map (collapse n1)).filter (keepT val n1)) := by
+    apply P10.SimL.filter hA
+    intro x hx y hxy
+    by_cases hxp : x.pixels = []
+    · -- cannot happen, but both sides are then equal anyway
+      have hyp : y.pixels = [] := by
+        have := Sm.pixels' hxy
+        rw [hxp] at this
+        exact List.perm_nil.mp this
+      unfold keepT
+      rw [← Sm.isLeaf' hxy]
+      cases hl : x.isLeaf with
+      | false => rfl
+      | true =>
+        have hxo : x.own = [] := by rw [pixels_eq] at hxp; exact (List.append_eq_nil_iff.mp hxp).1
+        have hyo : y.own = [] := by rw [pixels_eq] at hyp; exact (List.append_eq_nil_iff.mp hyp).1
+        simp [allOrphan, Crit.orphan, Tree.vmax, Tree.vmin, hxo, hyo, hxp, hyp]
+    · exact keepT_sim val n1 hxy hxp
+  -- 3. the loose trunk step is subsumed by the strict one
+  have s3 : SmL (((makeTrunk E0 roots0).map (collapse n1)).filter (keepT val n1))
+      ((roots0.map (collapse n1)).filter (keepT val n1)) := by
+    have hperm : ((makeTrunk E0 roots0).map (collapse n1)).Perm
+        ((roots0.filter (fun t => !(t.isLeaf && !E0.indepOrphan t))).map (collapse n1)) := by
+      unfold makeTrunk
+      exact ((sortById_perm roots0).filter _).map _
+    refine (SmL.of_perm (hperm.filter _)).trans ?_
+    rw [List.filter_map, List.filter_map, List.filter_filter]
+    have : roots0.filter (fun a => (keepT val n1 ∘ collapse n1) a && !(a.isLeaf && !E0.indepOrphan a))
+        = roots0.filter (keepT val n1 ∘ collapse n1) := by
+      apply List.filter_congr
+      intro t ht
+      have hk1 : keepT val n1 (collapse n1 t) = !fails n1 t := by
+        rw [keepT_eq val n1 (hpixC _ (List.mem_map_of_mem ht)), bn_collapse]
+      have hk0 : (!(t.isLeaf && !E0.indepOrphan t)) = !(t.isLeaf && fails n0 t) := by
+        rw [← hE0]
+        show (!(t.isLeaf && !allOrphan val [Crit.minDelta 0, Crit.minNpix n0] t)) = _
+        rw [io_eq val n0 (hne0 t ht)]; simp
+      simp only [Function.comp, hk1, hk0]
+      have hmono : fails n0 t = true → fails n1 t = true := by
+        simp only [fails, decide_eq_true_eq]; omega
+      cases h1 : fails n0 t <;> cases h2 : fails n1 t <;> simp_all
+    rw [this]
+    exact SmL.refl _
+  -- 4. pass to the strict run
+  have s4 : SmL ((roots0.map (collapse n1)).filter (keepT val n1)) (roots1.filter (keepT val n1)) := by
+    apply P10.SimL.filter hB
+    intro x hx y hxy
+    exact keepT_sim val n1 hxy (hpixC x hx)
+  -- 5. put the sort back
+  have s5 : SmL (roots1.filter (keepT val n1)) ((sortById roots1).filter (keepT val n1)) :=
+    SmL.of_perm ((sortById_perm roots1).filter _).symm
+  exact (((s1.trans s2).trans s3).trans s4).trans s5
+
+end Main
+
+/-! ## key facts in isolation: post-hoc test = merge-time test on frozen leaves -/
+
+/-- On a sorted run, for every parent/child pair with the child a leaf, the post-hoc test of
+`prune` (`min_delta = 0`, `min_npix = n`) is the test made at merge time at the creating pixel of
+the parent, whatever criteria `E` the run itself used: both delta tests hold, and the pixel count
+of the leaf is frozen. -/
+theorem posthoc_eq_mergetime (E : Env) (order : List Nat) (hnd : order.Nodup)
+    (hsorted : order.Pairwise (fun a b => E.val b ≤ E.val a)) (n : Nat) :
+    ∀ P ∈ Tree.preL (run E order), ∀ L ∈ P.kids, L.kids = [] →
+      allChild E.val [Crit.minDelta 0, Crit.minNpix n] P L =
+        allMerge E.val [Crit.minDelta 0, Crit.minNpix n] L P.id (E.val P.id) := by
+  intro P hP L hL hl
+  have key := run_induction_prefix E
+    (fun pre roots => (∀ x, x ∈ pixelsL roots ↔ x ∈ pre) ∧
+      (pre.Nodup → pre.Pairwise (fun a b => E.val b ≤ E.val a) → ContourP.ParentInv E pre roots))
+    ⟨by simp [pixelsL], by intro _ _ P hP; simp [preL] at hP⟩
+    (by
+      intro pre roots p ⟨hpix, hc⟩
+      refine ⟨ContourP.step_mem_pixels E roots p pre hpix, ?_⟩
+      intro hn hs
+      have hs' := ContourP.sorted_snoc hs
+      have hn' := ContourP.nodup_snoc hn
+      exact ContourP.step_parent E roots p pre hpix hn'.2 hs'.2 (hc hn'.1 hs'.1))
+    order
+  obtain ⟨_, _, _, hle⟩ := key.2 hnd hsorted P hP L hL
+  have hLn : L ∈ preL (run E order) := by
+    obtain ⟨l1, l2, l3, e⟩ := pre_parent_before_child (run E order) P L hP hL
+    rw [e]; simp
+  have hne : L.own ≠ [] := run_own_nonempty E order L hLn
+  rw [ic_eq E.val n hL hl hne]
+  obtain ⟨a, ha, hv⟩ := ContourP.vmax_attained E.val L hne
+  have h0 : decide (0 ≤ L.vmax E.val - E.val P.id) = true := by
+    have := hle a (ContourP.own_pixels_sub L ha)
+    simp only [decide_eq_true_eq]; omega
+  simp only [allMerge, List.all_cons, List.all_nil, Crit.atMerge, h0, Bool.true_and, Bool.and_true, fails]
+  by_cases h : n ≤ L.pixels.length
+  · simp [h]
+  · simp [h]; omega
+
+/-! ## why `min_delta` is excluded: a concrete witness -/
+
+/-- values `3 1 2` on a row of three pixels -/
+def dval : Nat → Int := fun p => [3, 1, 2].getD p 0
+/-- face adjacency on a row of three pixels -/
+def dnbrs : Nat → List Nat := Grid.nbrs [3] []
+
+/-- **NEGATIVE result for `min_delta`.**  Computing with `min_delta = 0` and pruning with
+`min_delta = 1` leaves one structure; computing with `min_delta = 1` gives three (the post-hoc
+test compares heights of leaf and parent, the merge-time test compares the peak with the joining
+value). -/
+theorem delta_counterexample :
+    (Tree.preL (prune (allChild dval [Crit.minDelta 1, Crit.minNpix 0])
+        (allOrphan dval [Crit.minDelta 1, Crit.minNpix 0])
+        (makeTrunk (envOf dval dnbrs [Crit.minDelta 0, Crit.minNpix 0])
+          (run (envOf dval dnbrs [Crit.minDelta 0, Crit.minNpix 0]) [0, 2, 1])))).length = 1 ∧
+    (Tree.preL (makeTrunk (envOf dval dnbrs [Crit.minDelta 1, Crit.minNpix 0])
+        (run (envOf dval dnbrs [Crit.minDelta 1, Crit.minNpix 0]) [0, 2, 1]))).length = 3 := by
+  decide
 
 end P18
